@@ -47,8 +47,6 @@ class StrSyn:
     # ---- public
     def returns(self, body, arg_terms=None, arg_vals=None, depth=0):
         """-> list of dict(parts=[…] | None, guards=[(cond, val)], muts={param_index: parts})"""
-        if body.loops():
-            raise NotSynthesisable(f"{body.short} builds its result in a loop")
         tb = Terms(self.F, body, inline_depth=0)
         conv = (lambda t: subst(t, arg_terms)) if arg_terms is not None else (lambda t: t)
         start = Alt()
@@ -122,8 +120,46 @@ class StrSyn:
         # type of a projected place is not in the facts; the caller falls back to the term's shape
         return None
 
+    def _loop_abstract(self, body, tb, conv, header, blks, alt):
+        """a loop is not unrolled: every string it appends to becomes `…prefix + <opaque text built in a loop>`"""
+        targets = set()
+        for i, t in body.calls():
+            if i not in blks:
+                continue
+            st, tr, m = parse_callee(t["callee"])
+            hb = self.F.bodies.get(t["callee"])
+            mutating = m in ("push_str", "push", "write_fmt", "write_str", "extend", "insert_str", "insert") or (tr and "AddAssign" in tr) or \
+                (hb is not None and any("&mut alloc::string::String" in hb.local_ty(k + 1).replace("'_ ", "") for k in range(hb.argc)))
+            if mutating and t["args"]:
+                r = root_of_operand(body, t["args"][0])
+                if r and not r[1] and "String" in body.local_ty(r[0]):
+                    targets.add(r[0])
+                if hb is not None:
+                    for k, a in enumerate(t["args"]):
+                        r2 = root_of_operand(body, a)
+                        if r2 and not r2[1] and "String" in body.local_ty(r2[0]) and k < hb.argc and "&mut" in hb.local_ty(k + 1):
+                            targets.add(r2[0])
+        for l in targets:
+            alt.vals[l] = alt.vals.get(l, []) + [("arg", ("loop", body.id, header), "loop", "text built in a loop", {})]
+        # locals assigned inside the loop are unknown afterwards
+        for i, si, s in body.assigns():
+            if i in blks and not place_proj(s["lhs"]) and s["lhs"]["l"] in alt.vals and s["lhs"]["l"] not in targets:
+                del alt.vals[s["lhs"]["l"]]
+
     def _walk(self, body, tb, conv, bb, alt, done, depth, seen):
+        loops = dict(body.loops())
         while True:
+            if bb in loops and bb not in seen:
+                blks = loops[bb]
+                self._loop_abstract(body, tb, conv, bb, blks, alt)
+                exits = sorted({t_ for s_ in blks for t_ in body.succ(s_) if t_ not in blks and body.term(t_)["k"] != "unreachable"})
+                seen = seen | set(blks)
+                if not exits:
+                    return
+                for e in exits[1:]:
+                    self._walk(body, tb, conv, e, alt.fork(), done, depth, seen)
+                bb = exits[0]
+                continue
             if bb in seen:
                 raise NotSynthesisable(f"{body.short}: cyclic path")
             seen = seen | {bb}
